@@ -6,6 +6,7 @@ mod crash;
 mod cyref;
 mod multi;
 mod qchk;
+mod qcrash;
 mod qexpr;
 mod qry;
 mod qupd;
@@ -41,6 +42,7 @@ fn main() {
         let end: u64 = args.get(5).and_then(|s| s.parse().ok()).unwrap_or(0);
         let code = match id.as_str() {
             "C25" => comp::c25_child(&fam, start, end),
+            "C16" => qcrash::c16_child(&fam, start, end),
             "C10" => multi::c10_child(args.get(4).map(|s| s.as_str()).unwrap_or("")),
             _ => 2,
         };
@@ -80,6 +82,8 @@ fn main() {
         "C13" => qupd::c13(tier),
         "C14" => qupd::c14(tier),
         "C24" => qupd::c24(tier),
+        "C15" => qchk::c15(tier),
+        "C16" => qcrash::c16(tier),
         "C19" => qchk::c19(tier),
         "C20" => qexpr::c20(tier),
         "C21" => qexpr::c21(tier),
